@@ -305,3 +305,16 @@ with_conform(PROPS["C03"], "Buffer")
 with_conform(PROPS["C13"], "Channel")
 with_conform(PROPS["C16"], "Ctx")
 with_conform(PROPS["C05"], "WaitCond", "Buffer")
+
+def _bufconc(tags):
+    return dict(family="bufconc", quick=60, thorough=3000, mismatch_is_violation=True, no_shrink=True, nontrivial=has(*tags),
+                rule="bufconc (concurrent, T3): 1-3 producers with batched Puts, 1-4 consumers (half of them shared by two goroutines) doing Get/Commit/Rollback, "
+                     "consumers created and closed mid-run, the real cleaner goroutine (DefaultCleaner or FixedBufferCleaner(12,4), cooldown 0/200us); every event is emitted by a "
+                     "verif hook INSIDE the critical section of Buffer.mutex / the consumer mutex (put batch, new consumer base, get relative index, commit offset, cleaner result, "
+                     "delete), so the log is a linearisation that the Lean L1 model must accept step by step (same index arithmetic, same cleaner result, same errors); values "
+                     "returned to callers must be reads of the model; final base/len/head compared")
+
+PROPS["C01"]["corr"].append(_bufconc(["shift_with_delta", "cons_after_shift", "batch2", "get_after_shift"]))
+PROPS["C02"]["corr"].append(_bufconc(["rollback_d2", "rollback", "commit"]))
+PROPS["C03"]["corr"].append(_bufconc(["evict_unread", "past_error", "shift", "consumer_closed"]))
+PROPS["C05"]["corr"].append(_bufconc(["get_pending"]))
